@@ -7,11 +7,12 @@ from .. import core, gen, impl_conc
 from . import c14
 
 ID = "C16"
-BUDGET = {"quick": 600, "thorough": 60000}
+BUDGET = {"quick": 3000, "thorough": 60000}
 RULE = ("scenario = one real threading Scheduler with a batch of n = 1-6 due jobs and n_threads m in {0, 1, 2, n-1, n, n+1}, callbacks "
         "that fail (20%) or rendezvous on an n-party barrier (only when m = 0 or m >= n), optionally max_exec with force_exec_all, "
         "optionally a second caller thread running exec_jobs on the same jobs; all worker interleavings are scheduled by the "
-        "controller (seeded random / PCT); Spec: every selected job invoked exactly once, all invocations finished when exec_jobs "
+        "controller (seeded random / PCT; in 30-70% with thread switches at every source line of the worker loop, Job._exec and the "
+        "rescheduling code); Spec: every selected job invoked exactly once, all invocations finished when exec_jobs "
         "returns, never more than m callbacks active at once (n when m = 0), the barrier run completes and reaches n simultaneous "
         "callbacks, a job's callback never overlaps itself, and attempts / due times / job set equal those of the same scenario "
         "run with one worker; non-trivial = m != 1 and n >= 2; distinct by (scenario, interleaving) hash")
@@ -22,9 +23,12 @@ S = 1_000_000
 def scenarios(rng, n, tier):
     for _ in range(n):
         clock = gen.rand_instant(rng)[0] // S * S
-        nj = rng.randint(1, 6)
+        # 10%: two overlapping callers on one or two never-run jobs, long callbacks, line-level switches
+        # (the "never overlaps itself" clause needs two workers inside the same job's execution path)
+        duel = rng.random() < 0.1
+        nj = rng.randint(1, 2) if duel else rng.randint(1, 6)
         m = rng.choice([0, 1, 2, max(1, nj - 1), nj, nj + 1])
-        barrier = (m == 0 or m >= nj) and nj >= 2 and rng.random() < 0.5
+        barrier = (not duel) and (m == 0 or m >= nj) and nj >= 2 and rng.random() < 0.5
         jobs = []
         for i in range(nj):
             o = {"call": rng.choice([0, 0, 5]), "timings": [["c", rng.choice([1, 2]) * S]]}
@@ -33,12 +37,13 @@ def scenarios(rng, n, tier):
             elif rng.random() < 0.2:
                 o["raises"] = True
             jobs.append(o)
-        two = (not barrier) and rng.random() < 0.25
+        two = duel or ((not barrier) and rng.random() < 0.3)
         force = rng.random() < 0.3
         scn = {"tz": None, "n_threads": m, "clock0": clock, "advance": 3 * S, "jobs": jobs, "ops": [],
                "max_exec": rng.choice([0, 0, 2]) if force else 0,
                "threads": [[{"op": "exec", "force": force}]] + ([[{"op": "exec", "force": False}]] if two else []),
-               "sched": {"kind": rng.choice(["random", "pct"]), "seed": rng.randrange(10**9), "depth": rng.randint(1, 4)}}
+               "sched": {"kind": "random" if duel else rng.choice(["random", "random", "pct"] if two else ["random", "pct"]), "seed": rng.randrange(10**9), "depth": rng.randint(1, 4)},
+               "line_preempt": duel or rng.random() < (0.7 if two else 0.3), "cb_len": rng.choice([12, 30]) if duel else (rng.choice([0, 4, 12]) if two else 0)}
         if barrier:
             scn["barriers"] = {"0": nj}
         yield scn
